@@ -702,6 +702,64 @@ impl Model for Names {
 """)
     g.derived.add("Names")
     A(T("Names", False, sym=True, default=False, depth=2))
+    # a lifetime-parameterised definition (Encode only: its fields are references) behind an owning holder whose decoder is
+    # the derived decoder of an owned twin; and a generic definition whose bounds sit in a `where` clause
+    g.items.append("""
+#[derive(Encode)]
+pub struct RefView<'a, 'b: 'a> {
+    pub a: &'a u16,
+    pub b: &'b Vec<u8>,
+    pub c: &'a [u8; 3],
+}
+#[derive(Debug, Clone, PartialEq, Decode)]
+pub struct RefOwned {
+    pub a: u16,
+    pub b: Vec<u8>,
+    pub c: [u8; 3],
+}
+#[derive(Debug, Clone, PartialEq)]
+pub struct RefHolder(pub RefOwned);
+impl Encode for RefHolder {
+    fn is_ssz_fixed_len() -> bool { <RefView<'static, 'static> as Encode>::is_ssz_fixed_len() }
+    fn ssz_fixed_len() -> usize { <RefView<'static, 'static> as Encode>::ssz_fixed_len() }
+    fn ssz_bytes_len(&self) -> usize { RefView { a: &self.0.a, b: &self.0.b, c: &self.0.c }.ssz_bytes_len() }
+    fn ssz_append(&self, buf: &mut Vec<u8>) { RefView { a: &self.0.a, b: &self.0.b, c: &self.0.c }.ssz_append(buf) }
+}
+impl Decode for RefHolder {
+    fn is_ssz_fixed_len() -> bool { <RefOwned as Decode>::is_ssz_fixed_len() }
+    fn ssz_fixed_len() -> usize { <RefOwned as Decode>::ssz_fixed_len() }
+    fn from_ssz_bytes(bytes: &[u8]) -> Result<Self, DecodeError> { RefOwned::from_ssz_bytes(bytes).map(RefHolder) }
+}
+impl Model for RefHolder {
+    fn ty() -> String { "(cont 1 (uint 2) (list (uint 1)) (bytesn 3))".to_string() }
+    fn to_model(&self) -> String { format!("(c {} {} {})", self.0.a.to_model(), self.0.b.to_model(), self.0.c.to_model()) }
+    fn gen(r: &mut Rng, size: usize) -> Self { RefHolder(RefOwned { a: u16::gen(r, size), b: <Vec<u8>>::gen(r, size / 2), c: <[u8; 3]>::gen(r, size) }) }
+}
+#[derive(Debug, Clone, PartialEq, Encode, Decode)]
+pub struct WhereGen<T, U>
+where
+    T: Encode + Decode,
+    U: Encode + Decode + Clone,
+{
+    pub a: T,
+    pub b: Vec<U>,
+    pub c: U,
+}
+impl<T: Encode + Decode + Model, U: Encode + Decode + Clone + Model> Model for WhereGen<T, U> {
+    fn ty() -> String { format!("(cont 1 {} (list {}) {})", T::ty(), U::ty(), U::ty()) }
+    fn dec_ty() -> String { format!("(cont 1 {} (list {}) {})", T::dec_ty(), U::dec_ty(), U::dec_ty()) }
+    fn to_model(&self) -> String { format!("(c {} {} {})", self.a.to_model(), self.b.to_model(), self.c.to_model()) }
+    fn to_model_dec(&self) -> String { format!("(c {} {} {})", self.a.to_model_dec(), self.b.to_model_dec(), self.c.to_model_dec()) }
+    fn gen(r: &mut Rng, size: usize) -> Self { WhereGen { a: T::gen(r, size / 2), b: <Vec<U>>::gen(r, size / 2), c: U::gen(r, size / 2) } }
+    fn symmetric() -> bool { T::symmetric() && U::symmetric() }
+    fn max_slot() -> usize { std::cmp::max(std::mem::size_of::<Self>(), std::cmp::max(T::max_slot(), U::max_slot())) }
+}
+""")
+    for n in ("RefView", "RefOwned", "WhereGen"):
+        g.derived.add(n)
+    A(T("RefHolder", False, sym=True, default=False, depth=2))
+    for a_, b_ in (("u8", "u16"), ("Vec<u8>", "u8"), ("u64", "[u8; 4]")):
+        A(T("WhereGen<%s, %s>" % (a_, b_), False, sym=True, default=False, depth=2))
     for n in ("CArr", "CPkt", "CLen"):
         g.derived.add(n)
     out = []
@@ -780,7 +838,7 @@ def tags_of(t, g):
         tags.add("bitfield")
     if t.fixed:
         tags.add("fixed")
-    for gname in ("Gen1", "Gen2", "Outer1", "CArr", "CPkt", "CLen"):
+    for gname in ("Gen1", "Gen2", "Outer1", "CArr", "CPkt", "CLen", "WhereGen"):
         if gname + "<" in r:
             tags.add("group:Gen")       # all instantiations of the generic definitions: one shard
     return tags
